@@ -1,7 +1,7 @@
 """Blocking / waking rules: P6a-d P7a-e P8 (DESIGN.md section 4)."""
 import re
 from core import CheckError, short, short_fn
-from engine import has_release, has_acquire
+from engine import has_release, has_acquire, norm_rel
 from rules_send import FLAVOURS, WRITE_OPS, CAS_OPS, index_sources
 from rules_recv import recv_roots
 
@@ -45,14 +45,22 @@ def locks_on(g, x, field):
 
 
 def run(ctx):
+    ctx.step(_run, ctx)
+
+
+def _p6_root(ctx, r, fl, shared):
+    _p6(ctx, ctx.graph(r, fl), r, fl, shared=shared)
+
+
+def _run(ctx):
     shared, view = recv_roots(ctx)
     for fl in FLAVOURS:
         for r in shared:
-            _p6(ctx, ctx.graph(r, fl), r, fl, shared=True)
+            ctx.step(_p6_root, ctx, r, fl, True)
         for r in view:
-            _p6(ctx, ctx.graph(r, fl), r, fl, shared=False)
-    _p7(ctx)
-    _p8(ctx)
+            ctx.step(_p6_root, ctx, r, fl, False)
+    ctx.step(_p7, ctx)
+    ctx.step(_p8, ctx)
 
 
 def is_blocking_loop(g, x):
@@ -210,6 +218,21 @@ def _p7(ctx):
                 # a spinning waiter must look at the awaited cell in its loop
                 cond_loads = [a for a in xw.atoms.values() if a.op == 'load']
                 ctx.add('P7a', 'T-LOOP', methods['wait'], bool(cond_loads), '%s::wait re-reads the awaited cell while spinning' % adt, sub=adt + '|spin')
+        if not always_panics:
+            # P7i: no loop of wait() can go round without re-reading the awaited cell (bounded `for` loops end by
+            # themselves: the Some-edge of their iterator counts as a cut)
+            from rules_misc import progress_edges
+            prog, kinds = progress_edges(gw, xw)
+            cuts = {e_ for e_ in prog if kinds.get(e_) == 'iterator' or kinds.get(xw.rep(e_)) == 'iterator'}
+            at_l = xw._exp({a.nid for a in xw.atoms.values() if a.op == 'load' and
+                            any(s_[0] == 'param' and s_[1] == gw.root_inst and s_[2] == 3 for arg in gw.call_args(a.nid)[:1] for s_ in gw.deep_walk(arg))})
+            blocked = cuts | at_l
+            stuck = sorted(n for n in gw.live() if n not in blocked and n in gw.reachable(gw.nodes[n].succs, blocked))
+            w_ = [gw.where(n) for n in stuck if gw.nodes[n].kind == 'block'][:4]
+            ctx.add('P7i', 'T-LOOP', methods['wait'], not stuck,
+                    '%s::wait: every loop re-reads the awaited cell on each iteration (or is a bounded spin)' % adt if not stuck else
+                    '%s::wait has a loop that can go round forever without re-evaluating the wake-up condition (e.g. when an inner spin loop runs zero times): '
+                    'a waiting consumer never notices the value it waits for; cycle through %s' % (adt, w_), where=w_[0] if w_ else None, witness=w_, sub=adt + '|loop')
         ctx.add('P7e', 'T-REACH', methods['wait'], True, '%s::wait: explicit panic reachable=%s, returns normally=%s' % (adt, bool(panics), not always_panics), sub=adt + '|info')
         if not always_panics:
             _roles(ctx, gw, methods['wait'], adt, 2, 3, 4)
@@ -356,13 +379,14 @@ def _roles(ctx, g, fn, label, p_seq, p_at, p_wc):
     gi = ctx.graph(ctx.fn1(r'^countedindex::is_tagged$'))
     ri = gi.strip(gi.ev_local(gi.root_inst, 0))
     ind = None
-    if ri[0] == 'bin' and ri[1] == 'Ne':
-        l_ = gi.strip(ri[2])
-        if l_[0] == 'bin' and l_[1] == 'BitAnd':
-            for z in (l_[2], l_[3]):
-                z = gi.strip(z)
-                if z[0] == 'c':
-                    ind = str(z[1])
+    nr_ = norm_rel(gi, ri)
+    if nr_ and nr_[0] == 'Eq' and not nr_[3]:
+        for l_ in (nr_[1], nr_[2]):
+            if l_[0] == 'bin' and l_[1] == 'BitAnd':
+                for z in (l_[2], l_[3]):
+                    z = gi.strip(z)
+                    if z[0] == 'c':
+                        ind = str(z[1])
     for sid in x.switches():
         e = g.strip(g.switch_expr(sid))
         for s_ in g.walk(e):
